@@ -52,6 +52,7 @@ func c08Cfgs(level int) []c08Cfg {
 		{"schema[a],[a,b]", `[["a"],["a","b"]]`, nil},
 		{"client[n],[c]", `[]`, []model.ClientIndex{ck("n"), ck("c")}},
 		{"client[m|k1],[n]", `[]`, []model.ClientIndex{ck([2]string{"m", "k1"}), ck("n")}},
+		{"client[m|k1,m|k2]", `[]`, []model.ClientIndex{ck([2]string{"m", "k1"}, [2]string{"m", "k2"})}}, // one index over two keys of one map
 		{"schema[a]+client[a],[b],[n]", `[["a"]]`, []model.ClientIndex{ck("a"), ck("b"), ck("n")}},
 		{"client[b,n],[c]", `[]`, []model.ClientIndex{ck("b", "n"), ck("c")}},
 		{"schema[a,b]+client[m|k1],[m|k2],[bo]", `[["a","b"]]`, []model.ClientIndex{ck([2]string{"m", "k1"}), ck([2]string{"m", "k2"}), ck("bo")}},
@@ -352,7 +353,8 @@ func runC08(r *ev.Run) {
 	}
 	for i := 0; i < len(reduced); i++ {
 		for j := 0; j < len(reduced); j++ {
-			if level == 0 && (i*len(reduced)+j)%pairStep != 0 && !(reduced[i].Fn == "==" && reduced[j].Fn == "==") {
+			bothMap := reduced[i].Col == "m" && reduced[j].Col == "m" && reduced[i].Fn == "includes" && reduced[j].Fn == "includes" // two conditions on keys of one map meet multi-key indexes
+			if level == 0 && (i*len(reduced)+j)%pairStep != 0 && !(reduced[i].Fn == "==" && reduced[j].Fn == "==") && !bothMap {
 				continue
 			}
 			lists = append(lists, []rm.Cond{reduced[i], reduced[j]})
